@@ -1126,6 +1126,7 @@ func checkC06(p *Prog, r *Report) {
 	ruleOptionalBanner(p, m, r)
 	ruleHAFailClosed(p, r)
 	ruleBannerPatternComplete(p, r)
+	ruleConfigNotRebuilt(p, r)
 	ruleDeferredErrorPreserved(p, r, sessionPkgs)
 	r.rule("R06.10", "The conditions under which an unmanaged-device finding is recorded are the audited ones (tables/guards.tsv rows for C06): ASA/IOS — a banner check is configured and the pattern does not occur in the login banner; Linux — a check is configured and grep of /etc/issue printed nothing; PAN-OS — the display-name of the vsys does not contain 'netspoc'. In particular, without a configured banner check no finding is recorded and approve works normally.")
 	ruleGuardTable(p, r, "R06.10", "C06")
@@ -1567,4 +1568,81 @@ func ruleBannerPatternComplete(p *Prog, r *Report) {
 		}
 	}
 	r.floor("R06.9", "stores into Config.CheckBanner", n, 1)
+}
+
+// ruleConfigNotRebuilt: R06.11.
+func ruleConfigNotRebuilt(p *Prog, r *Report) {
+	r.rule("R06.11", "The configuration the checks consult is the one that was loaded: a value of type program.Config is created only in the function that stores into CheckBanner (the loader); any other place that creates one copies the whole struct (`c2 := *cfg`) or stores into CheckBanner as well. A partial field-by-field copy (settings `needed to access the device`) arrives at the banner check with CheckBanner == nil, which means `no check configured`.")
+	var cfgT types.Type
+	if pk := p.Mod["program"]; pk != nil {
+		if obj := pk.Types.Scope().Lookup("Config"); obj != nil {
+			cfgT = obj.Type()
+		}
+	}
+	if cfgT == nil {
+		r.fail("R06.11", "anchor|program.Config", "", "type not found", "")
+		return
+	}
+	st, _ := cfgT.Underlying().(*types.Struct)
+	bannerIdx := -1
+	for i := 0; st != nil && i < st.NumFields(); i++ {
+		if st.Field(i).Name() == "CheckBanner" {
+			bannerIdx = i
+		}
+	}
+	n := 0
+	for _, fn := range allModFuncs(p) {
+		for _, b := range fn.Blocks {
+			for _, in := range b.Instrs {
+				al, ok := in.(*ssa.Alloc)
+				if !ok || !types.Identical(al.Type().Underlying().(*types.Pointer).Elem(), cfgT) {
+					continue
+				}
+				n++
+				whole, banner := false, false
+				if al.Referrers() != nil {
+					for _, ref := range *al.Referrers() {
+						switch x := ref.(type) {
+						case *ssa.Store:
+							if x.Addr == ssa.Value(al) {
+								whole = true
+							}
+						case *ssa.FieldAddr:
+							if x.Field == bannerIdx && x.Referrers() != nil {
+								for _, r2 := range *x.Referrers() {
+									if s2, ok := r2.(*ssa.Store); ok && s2.Addr == ssa.Value(x) {
+										banner = true
+									}
+								}
+							}
+						}
+					}
+				}
+				if !banner {
+					// the loader fills the struct through a closure that captured it
+					var visit func(f *ssa.Function)
+					visit = func(f *ssa.Function) {
+						for _, bb := range f.Blocks {
+							for _, x := range bb.Instrs {
+								if s2, ok := x.(*ssa.Store); ok {
+									if fa, ok := s2.Addr.(*ssa.FieldAddr); ok && fa.Field == bannerIdx {
+										if pt, ok := fa.X.Type().Underlying().(*types.Pointer); ok && types.Identical(pt.Elem(), cfgT) {
+											banner = true
+										}
+									}
+								}
+							}
+						}
+						for _, a := range f.AnonFuncs {
+							visit(a)
+						}
+					}
+					visit(fn)
+				}
+				r.add("R06.11", "config-created|"+fnDisplay(fn), p.ipos(al), "the program.Config created in "+fnDisplay(fn)+" carries the banner check (loader, or whole-struct copy)", whole || banner,
+					"a configuration is built field by field without CheckBanner: the unmanaged-device check is silently switched off for everything that uses this copy")
+			}
+		}
+	}
+	r.floor("R06.11", "places that create a program.Config", n, 1)
 }
